@@ -110,6 +110,19 @@ def fullWave (cfg : Cfg) (m : Option Nat) (sigs : List Wave) (ts : List Time) : 
   let w := sigs.foldl (fun w s => if skipped s lo hi then w else addW w (withTimes s long)) w0
   withTimes w ts
 
+/-! ### inputs the implementation rejects (it raises; the totalised definitions above must not be read there) -/
+
+/-- `Antenna.full_waveform(times)` raises: `IndexError` for a window of fewer than two samples (`times[1]`)
+or an empty received signal (`signal.times[-1]`); `OverflowError`/`ValueError` when `times[1] == times[0]`
+(division by zero); `ValueError` from `np.linspace` when the number of padding samples comes out negative
+(a window or the longest signal running backwards in time). -/
+def fullWaveRejects (sigs : List Wave) (ts : List Time) : Bool :=
+  decide (ts.length < 2) || sigs.any (·.isEmpty) || decide (dtOf ts = 0) ||
+  decide (nPts (maxSpan sigs) (dtOf ts) < 0)
+
+/-- `all_waveforms` / `waveforms` / `is_hit` call `full_waveform(s.times)` for every received signal -/
+def allWavesRejects (sigs : List Wave) : Bool := sigs.any (fun s => fullWaveRejects sigs (timesOf s))
+
 /-! ## the antenna state machine -/
 structure State where
   signals   : List Wave
@@ -240,6 +253,11 @@ def leadInTimes (lead : Rat) (ts : List Time) : List Time :=
   let step := (t0 - tmin) / (n : Rat)          -- np.linspace(t_min, t0, n_pts, endpoint=False)
   (List.range n.toNat).map (fun (k : Nat) => tmin + (k : Rat) * step) ++ ts
 
+/-- `_calculate_lead_in_times(times)` raises: `IndexError` below two samples, division by zero for
+`times[1] == times[0]`, `ValueError` from `np.linspace` for a negative number of lead-in samples -/
+def leadInRejects (lead : Rat) (ts : List Time) : Bool :=
+  decide (ts.length < 2) || decide (dtOf ts = 0) || decide (leadInN lead ts < 0)
+
 structure SysCfg where
   ant    : Cfg
   leadIn : Rat
@@ -355,6 +373,10 @@ def idFe (w : Wave) : Wave := w
 /-- pedestal subtraction with the first sample of what the front end is given: `out[k] = in[k] - in[0]`
 (a front end whose output depends on where its input window starts, i.e. on the lead-in) -/
 def baseFe (w : Wave) : Wave := w.map (fun p => (p.1, p.2 - (w.head?.map (·.2)).getD 0))
+/-- amplifier clipping at ±1 (`np.clip`), as in the shipped ARA / ARIANNA front ends: NOT additive -/
+def clipFe (w : Wave) : Wave := w.map (fun p => (p.1, max (-1) (min 1 p.2)))
+/-- rectifier (envelope-like, as in the IREX front end): NOT additive -/
+def absFe (w : Wave) : Wave := w.map (fun p => (p.1, absR p.2))
 /-- one-sample echo: `out[k] = in[k] + in[k-1]/2`, `in[-1] = 0` -/
 def echoFe (w : Wave) : Wave :=
   List.zipWith (fun p prev => (p.1, p.2 + prev * (1 / 2))) w (0 :: valsOf w)
